@@ -73,7 +73,7 @@ func (m *Type) Clone(reuse *Type) *Type {
 
 	if reuse != nil {
 		if len(reuse.stack) < newStackSize {
-			reuse.growStack(newStackSize - len(reuse.stack))
+			reuse.stack = append(reuse.stack, make([]value.Type, newStackSize-len(reuse.stack))...)
 		}
 		newStack = reuse.stack
 	} else {
